@@ -2628,7 +2628,7 @@ Proof.
         { rewrite skipn_firstn_comm. f_equal. unfold n2. lia. }
         rewrite <- Esk. unfold over in E |- *.
         destruct ((sb + btw1 <=? x) && (x <? sb + btw1 + lenZ (skipn (Z.to_nat btw1) (firstn (Z.to_nat bb) data)))); auto.
-        rewrite Old1 by auto. exact E.
+        rewrite Old1 by auto. unfold over. exact E.
       * (* the whole block was in the old chunk *)
         assert (Ebb : btw1 = bb) by lia. rewrite Ebb in E, Old1.
         replace (skipn (Z.to_nat bb) (firstn (Z.to_nat bb) data)) with (@nil Z) in E.
@@ -2668,6 +2668,7 @@ Proof.
     destruct (wblock_loop_ok sb eb ltac:(lia) ltac:(lia) cs d 0 0 data C PD ltac:(lia) ltac:(lia)) as (d1 & R1 & C1 & F1 & A1); [fold bb; lia|].
     cbn zeta in R1, A1. fold bb in R1, A1. rewrite Z.add_0_l, Z.sub_0_r, Z.add_0_r in *.
     set (m := Z.min bb (Z.max 0 (cap_of cs - sb))) in *. rewrite Z.add_0_l in R1. rewrite R1. cbn [bindR].
+    replace (m - 0) with m in A1 by lia.
     rewrite L. destruct (Z.eqb_spec (lenZ r + 2) 0); [lia|].
     assert (T1 : table_at d1 (h_dc h) cs).
     { apply (table_at_frame d d1 _ _ (in_exts cs) Tb0 F1). intros x Hx (c' & I' & Hx').
@@ -2721,7 +2722,7 @@ Proof.
         { rewrite skipn_firstn_comm. f_equal. unfold nb2. lia. }
         rewrite <- Esk. unfold over in E |- *.
         destruct ((sb + m <=? x) && (x <? sb + m + lenZ (skipn (Z.to_nat m) (firstn (Z.to_nat bb) data)))); auto.
-        rewrite A1 by auto. exact E.
+        rewrite A1 by auto. unfold over. exact E.
       * assert (m = bb) by (unfold m in *; lia).
         replace (skipn (Z.to_nat m) (firstn (Z.to_nat bb) data)) with (@nil Z) in E.
         2:{ symmetry. apply skipn_all2. rewrite firstn_length. lia. }
